@@ -6,12 +6,12 @@ CONSTANTS
   HT = 1
   PreVote = FALSE
   CheckQuorum = FALSE
-  MaxTerm = 3
-  MaxLen = 5
+  MaxTerm = 2
+  MaxLen = 4
   MaxMsgs = 2
   MaxDup = 0
   MaxCrash = 1
-  MaxProp = 2
+  MaxProp = 1
   MaxRead = 0
   MaxCC = 0
   MaxSnap = 1
